@@ -170,6 +170,23 @@ def exhaustive_interleavings(tier):
     return out
 
 
+def dishonest_lines(rng, n):
+    """histories with a DISHONEST update (the pairing of another pair): outside the premise of the transparency
+    theorem; only model-vs-implementation correspondence is checked (both must be fooled in the same way)"""
+    out = ["bls.hist 2 3 2 -|Bk0.1/k1.1 -|Vk0.1/s1.1 -|Vk0.1/s0.1 -|Ek0.1 -|Vk0.1/s0.1",
+           "bls.hist 1 3 2 -|Bk0.1/k1.1 -|Uk2.1 -|Vk0.1/s1.1 -|Vk0.1/s0.1"]
+    for _ in range(n):
+        nk, nm = 2 + rng.below(3), 1 + rng.below(2)
+        a, b = rng.below(nk), rng.below(nk)
+        m = rng.below(nm)
+        ph = ["-|Bk%d.%d/k%d.%d" % (a, m, b, m)]
+        for _ in range(2 + rng.below(3)):
+            k = rng.choice([a, b])
+            ph.append("-|Vk%d.%d/s%d.%d" % (rng.choice([a, b]), m, k, m))
+        out.append("bls.hist %d %d %d %s" % (1 + rng.below(3), nk, nm, " ".join(ph)))
+    return out
+
+
 class Stats(dict):
     def __missing__(self, k):
         return 0
@@ -271,6 +288,18 @@ def run(ctx):
                 rep.add_failure("bls.o_hist", l, o, "OK", "cache transparency / capacity / entry invariant violated on the real BlsCache")
         rep.streams["bls.o_hist"] = {"cases": len(olines), "ok": sum(1 for o in outs if o == "OK")}
         rep.evaluations += len(olines)
+        if not ctx.get("replay") and ctx["have_model"]:
+            dl = dishonest_lines(rng.fork("dishonest"), 10 if tier == "quick" else 200)
+            di = C.run_lines(C.VH(UNIT), dl, timeout=1500)
+            dm = C.run_lines(C.VRUN(UNIT), dl, timeout=1500)
+            sub = C.Report(rep.pid, rep.tier, rep.seed)
+            diff_stream(sub, "bls.hist/dishonest-update", dl, di, dm)
+            rep.streams["bls.hist/dishonest-update"] = dict(sub.streams["bls.hist/dishonest-update"],
+                fooled=sum(1 for o in di for v in _verdicts(o) if v[5] != v[2]),
+                note="outside the theorem's premise (update() handed a foreign pairing); correspondence only")
+            rep.evaluations += len(dl)
+            rep.traces += len(dl)
+            corr_fail += sub.failures
         if corr_fail:
             bad_oracle = {f["case"] for f in rep.failures}
             concrete = [f for f in corr_fail if f["case"] in bad_oracle or ("bls.o_hist" + f["case"][len("bls.hist"):]) in bad_oracle]
